@@ -1006,6 +1006,43 @@ func checkSingleDeployer(cx *CheckCtx, sp *ssa.Package) {
 					if (t.Op == "field" && (t.Name == "tryDeploy" || t.Name == "tryTransfer")) || (t.Op == "load") {
 						ok2 = true // flag handed on unchanged
 					}
+					if t.Op == "param" {
+						// a helper that receives the flag as a parameter: every caller in the package
+						// must pass an accepted expression (one level)
+						if pi := paramIndexOf(fn, st.Val); pi >= 0 {
+							ok2 = true
+							nCallers := 0
+							for _, caller := range allFuncs(sp) {
+								for _, cb := range caller.Blocks {
+									for _, ci := range cb.Instrs {
+										c, isC := ci.(*ssa.Call)
+										if !isC || c.Common().StaticCallee() != fn || len(c.Common().Args) <= pi {
+											continue
+										}
+										nCallers++
+										ct := newTermBuilder(w, caller)
+										at := ct.Term(ct.root, c.Common().Args[pi])
+										good := at.Op == "field" && (at.Name == "tryDeploy" || at.Name == "tryTransfer") || at.Op == "load"
+										if at.Op == "bin" && at.Name == "==" && len(at.Args) == 2 {
+											if n, isC := at.Args[1].IntConst(); isC && n == 0 {
+												good = true
+											}
+											if n, isC := at.Args[0].IntConst(); isC && n == 0 {
+												good = true
+											}
+										}
+										if !good {
+											ok2 = false
+											desc = "Param(" + fn.Params[pi].Name() + ") = " + at.pretty() + " at " + w.pos(c.Pos())
+										}
+									}
+								}
+							}
+							if nCallers == 0 {
+								ok2 = false
+							}
+						}
+					}
 					cx.decide(ok2, "single-deployer", fmt.Sprintf("deploy.%s/%s=", fn.Name(), fname), "computed as 'local committee index == 0' (or '== member index')", fmt.Sprintf("the %s flag is set to %s, not to 'local committee index == 0': several members (or none) deploy/fund, contracts are duplicated or never deployed", fname, desc), w.pos(st.Pos()))
 				}
 				// submissions
@@ -1299,4 +1336,15 @@ func cellsFeeding(v ssa.Value, cellOf func(ssa.Value) string, depth int, seen ma
 func firstResultIs(f *ssa.Function, suffix string) bool {
 	r := f.Signature.Results()
 	return r.Len() > 0 && strings.HasSuffix(r.At(0).Type().String(), suffix)
+}
+
+// paramIndexOf: v is (a conversion of) the i-th parameter of fn, else -1.
+func paramIndexOf(fn *ssa.Function, v ssa.Value) int {
+	v = stripConv(v)
+	for i, p := range fn.Params {
+		if ssa.Value(p) == v {
+			return i
+		}
+	}
+	return -1
 }
